@@ -71,6 +71,13 @@ pub enum Call {
     /// copy the database files as they are between two calls (kill -9 image) and audit the copy
     #[serde(rename = "kill_copy")]
     KillCopy,
+    /// SQLite only: from now on every write of this document id fails inside the database (a
+    /// trigger raising ABORT, installed through SqliteStorage::handle()) - the n-th statement of a
+    /// batch hitting a constraint, an oversized value or a full disk
+    #[serde(rename = "poison")]
+    Poison { id: u64 },
+    #[serde(rename = "heal")]
+    Heal,
 }
 
 #[derive(Serialize, Deserialize, Clone, Debug)]
@@ -201,6 +208,10 @@ async fn do_call<S: Storage>(s: &S, m: &mut Model, c: &Call, b: &str, i: usize, 
                 out.fault("disk_full_error");
                 return false;
             }
+            if msg.contains("injected storage fault") {
+                out.fault("write_failed_inside_the_database");
+                return false;
+            }
             out.violate(format!("C17/{b}/unexpected-error/{}", $name), format!("{when}: {msg}"));
             return false;
         }};
@@ -307,7 +318,7 @@ async fn do_call<S: Storage>(s: &S, m: &mut Model, c: &Call, b: &str, i: usize, 
             m.named.insert(ks.clone());
             // compared by the audit below
         },
-        Call::KeyspaceList | Call::Reopen | Call::KillCopy => {},
+        Call::KeyspaceList | Call::Reopen | Call::KillCopy | Call::Poison { .. } | Call::Heal => {},
     }
     true
 }
@@ -324,6 +335,8 @@ fn call_name(c: &Call) -> &'static str {
         Call::IterMetadata { .. } => "iter_metadata",
         Call::KeyspaceList => "get_keyspace_list",
         Call::Reopen => "reopen",
+        Call::Poison { .. } => "poison",
+        Call::Heal => "heal",
         Call::KillCopy => "kill_copy",
     }
 }
@@ -335,6 +348,11 @@ pub(crate) trait Opener {
     const PERSISTENT: bool;
     async fn open(dir: &Path) -> Result<Self::S, String>;
     async fn close(s: Self::S);
+    /// make every later write of `id` fail inside the database; false = not supported
+    async fn poison(_s: &Self::S, _id: u64) -> bool {
+        false
+    }
+    async fn heal(_s: &Self::S) {}
 }
 
 pub(crate) struct OSqlite;
@@ -345,6 +363,19 @@ impl Opener for OSqlite {
     const PERSISTENT: bool = true;
     async fn open(dir: &Path) -> Result<SqliteStorage, String> {
         SqliteStorage::open(dir.join("data.db")).await.map_err(|e| e.to_string())
+    }
+    async fn poison(s: &SqliteStorage, id: u64) -> bool {
+        let _ = s.handle().execute("DROP TRIGGER IF EXISTS dcsim_fault;", ()).await;
+        s.handle()
+            .execute(
+                format!("CREATE TRIGGER dcsim_fault BEFORE INSERT ON state_entries WHEN NEW.doc_id = {} BEGIN SELECT RAISE(ABORT, 'injected storage fault'); END;", id as i64),
+                (),
+            )
+            .await
+            .is_ok()
+    }
+    async fn heal(s: &SqliteStorage) {
+        let _ = s.handle().execute("DROP TRIGGER IF EXISTS dcsim_fault;", ()).await;
     }
     async fn close(s: SqliteStorage) {
         // make sure the worker has drained: a read after the last write
@@ -379,16 +410,19 @@ impl Opener for OLmdb {
         // the backend's worker thread is still exiting (seen as SIGSEGV in early runs of this
         // harness). So: keep a clone, drop the storage, wait until the worker thread is gone,
         // and only then close.
-        let env = s.handle().env().clone();
+        // The environment itself is NOT closed: heed keeps every opened Env in a process-global
+        // table and a real close needs prepare_for_closing, which unmaps the lock file while the
+        // backend's worker thread may still be running its thread-exit destructor (LMDB frees the
+        // thread's reader slot there) - seen as rare SIGSEGVs of this harness, not of datacake.
+        // Dropping the storage is what an application does; the next open of the same path gets
+        // heed's still-open environment, and "a new process opens the files" is emulated by
+        // opening a copy of the files (see `reopen_dir`).
         drop(s);
         let _ = tokio::task::spawn_blocking(move || {
-            let deadline = std::time::Instant::now() + Duration::from_secs(60);
-            while plain_threads() > 1 + LMDB_OPEN.load(Ordering::SeqCst).saturating_sub(1) as usize && std::time::Instant::now() < deadline {
+            let deadline = std::time::Instant::now() + Duration::from_secs(10);
+            while plain_threads() > 1 && std::time::Instant::now() < deadline {
                 std::thread::sleep(Duration::from_micros(200));
             }
-            std::thread::sleep(Duration::from_micros(300));
-            LMDB_OPEN.fetch_sub(1, Ordering::SeqCst);
-            env.prepare_for_closing().wait();
         })
         .await;
     }
@@ -426,7 +460,8 @@ impl Opener for OMem {
 }
 
 async fn drive<O: Opener>(sc: &Scenario, out: &mut Outcome, tr: &mut Fnv) -> Result<(), String> {
-    let dir = scratch_dir();
+    let root = scratch_dir();
+    let mut dir = root.clone();
     let b = O::NAME;
     let mut model = Model::default();
     let mut s = Some(O::open(&dir).await?);
@@ -438,6 +473,20 @@ async fn drive<O: Opener>(sc: &Scenario, out: &mut Outcome, tr: &mut Fnv) -> Res
             Call::Reopen => {
                 if O::PERSISTENT {
                     O::close(s.take().unwrap()).await;
+                    // LMDB: alternately the application's own way (open the same path again in
+                    // this process) and "a new process opens the files" (a copy of the files)
+                    if b == "lmdb" && i % 2 == 1 {
+                        let next = dir.join(format!("gen{i}"));
+                        let (src, dst) = (dir.join("lmdb"), next.join("lmdb"));
+                        std::fs::create_dir_all(&dst).map_err(|e| e.to_string())?;
+                        for e in std::fs::read_dir(&src).map_err(|e| e.to_string())? {
+                            let e = e.map_err(|e| e.to_string())?;
+                            if e.path().is_file() {
+                                std::fs::copy(e.path(), dst.join(e.file_name())).map_err(|e| e.to_string())?;
+                            }
+                        }
+                        dir = next;
+                    }
                     match O::open(&dir).await {
                         Ok(n) => s = Some(n),
                         Err(e) => {
@@ -473,6 +522,12 @@ async fn drive<O: Opener>(sc: &Scenario, out: &mut Outcome, tr: &mut Fnv) -> Res
                     }
                 }
             },
+            Call::Poison { id } => {
+                if O::poison(s.as_ref().unwrap(), *id).await {
+                    out.probe("row_failure_trigger_installed");
+                }
+            },
+            Call::Heal => O::heal(s.as_ref().unwrap()).await,
             _ => {
                 let ok = do_call(s.as_ref().unwrap(), &mut model, c, b, i, tolerate_full, out, tr).await;
                 let _ = ok;
@@ -491,7 +546,7 @@ async fn drive<O: Opener>(sc: &Scenario, out: &mut Outcome, tr: &mut Fnv) -> Res
     } else {
         res = Ok(());
     }
-    let _ = std::fs::remove_dir_all(&dir);
+    let _ = std::fs::remove_dir_all(&root);
     // final model fingerprint
     for (ks, rows) in &model.rows {
         tr.str(ks);
@@ -623,6 +678,13 @@ impl Check for C17 {
                 15..=16 => Call::Get { ks, id: gen_id(&mut rng, &pool) },
                 17..=18 => Call::MultiGet { ks, ids: (0..rng.gen_range(1..=5)).map(|_| gen_id(&mut rng, &pool)).collect() },
                 19 => Call::IterMetadata { ks },
+                20 if backend == "sqlite" && rng.gen_bool(0.5) => {
+                    if rng.gen_bool(0.7) {
+                        Call::Poison { id: gen_id(&mut rng, &pool) }
+                    } else {
+                        Call::Heal
+                    }
+                },
                 20 => Call::KeyspaceList,
                 21..=22 => Call::Reopen,
                 23 => Call::KillCopy,
@@ -638,6 +700,10 @@ impl Check for C17 {
             events.push(Call::Put { ks: kss[0].clone(), doc: gen_doc(&mut rng, &pool, false), with_ctx: false });
         }
         serde_json::to_value(Scenario { backend: backend.to_string(), events }).unwrap()
+    }
+    fn isolate(&self, scenario: &Value) -> bool {
+        // LMDB environments stay open until the process ends (see OLmdb::close): one process per case
+        scenario.get("backend").and_then(|b| b.as_str()) == Some("lmdb")
     }
     fn execute(&self, scenario: &Value) -> Outcome {
         let sc: Scenario = match serde_json::from_value(scenario.clone()) {
